@@ -219,7 +219,9 @@ def path_defaults_doc():
     for i, flags in enumerate([(0, 0), (0, 1), (1, 1), (1, 0), (0, 1, 1), (0, 1, 0), (1, 0, 1)]):
         seg = "".join("/{p%d}/s%d" % (j, j) for j in range(len(flags)))
         ps = [P("p%d" % j, "path", D if f else S) for j, f in enumerate(flags)]
-        paths[f"/pd{i}{seg}"] = {"get": op(f"pd{i}_bare", list(ps)), "post": op(f"pd{i}_kw", ps + [P("q", "query", S, False), P("r", "query", S, True)])}
+        paths[f"/pd{i}{seg}"] = {"get": op(f"pd{i}_bare", list(ps)), "post": op(f"pd{i}_kw", ps + [P("q", "query", S, False), P("r", "query", S, True)]),
+                                 # the request body as the ONLY argument behind the path parameters (the keyword-only marker must still be there)
+                                 "put": op(f"pd{i}_body_only", list(ps), body={"content": {"application/json": {"schema": {"$ref": REF + "Item"}}}, "required": True})}
     paths["/api/{api-version}/widgets/{widget_id}"] = {"get": op("renamed_default_first", [P("api-version", "path", {"type": "string", "default": "v1"}), P("widget_id", "path", {"type": "integer"}),
                                                                                              P("verbose", "query", {"type": "boolean"}, False)])}
     return doc(paths)
